@@ -40,6 +40,10 @@ type c04Shape struct {
 	keys       []c04Param
 	aok  bool // &allow-other-keys written in the lambda list
 	aux  []c04Param
+	// mcase: how the lambda-list markers are written for slip: 0 lower case, 1 upper case (&OPTIONAL),
+	// 2 capitalised (&Optional), 3 alternating (&oPtIoNaL). Symbols are case insensitive: the model and
+	// the code-level machine always get the lower-case spelling.
+	mcase int
 	// extraAlpha: further keyword names the vector generator may put in key position (key names of
 	// earlier definitions of the same function in a history); not part of the lambda list
 	extraAlpha []string
@@ -67,7 +71,15 @@ func (p c04Param) wire() string {
 // after the key parameters: slip documents (defun) that "the default and only option if &key is
 // included is for :allow-other-keys to be true".
 func (sh c04Shape) elems(withRest bool) (lisp, wire []string) {
-	add := func(l, w string) { lisp = append(lisp, l); wire = append(wire, w) }
+	add := func(l, w string) {
+		if strings.HasPrefix(l, "&") {
+			// the model reads the marker as it is written (parseLLci folds its case)
+			l = c04MarkerCase(l, sh.mcase)
+			w = c04Sym(l)
+		}
+		lisp = append(lisp, l)
+		wire = append(wire, w)
+	}
 	for _, r := range sh.req {
 		add(r, c04Sym(r))
 	}
@@ -91,9 +103,9 @@ func (sh c04Shape) elems(withRest bool) (lisp, wire []string) {
 			add(p.lisp(), p.wire())
 		}
 		if sh.aok {
-			lisp = append(lisp, "&allow-other-keys")
+			lisp = append(lisp, c04MarkerCase("&allow-other-keys", sh.mcase))
 		}
-		wire = append(wire, c04Sym("&allow-other-keys"))
+		wire = append(wire, c04Sym(c04MarkerCase("&allow-other-keys", sh.mcase)))
 	}
 	if len(sh.aux) > 0 {
 		add("&aux", c04Sym("&aux"))
@@ -107,6 +119,7 @@ func (sh c04Shape) elems(withRest bool) (lisp, wire []string) {
 // llWireRaw: the lambda list exactly as it is written for slip (&allow-other-keys only when the
 // shape has it): what DefLambda sees, for the code-level machine `ll impl`.
 func (sh c04Shape) llWireRaw() string {
+	sh.mcase = 0 // the machine works on the lower-case markers (GenC04.marker_fold_facts: every comparison folds case)
 	l, w := sh.elems(true)
 	if len(w) > len(l) {
 		// elems appended the model's &allow-other-keys to the wire form only: drop it again
@@ -119,6 +132,27 @@ func (sh c04Shape) llWireRaw() string {
 		}
 	}
 	return "(" + strings.Join(w, ",") + ")"
+}
+
+// c04MarkerCase spells a lambda-list marker in one of the four ways
+func c04MarkerCase(m string, mcase int) string {
+	switch mcase {
+	case 1:
+		return strings.ToUpper(m)
+	case 2:
+		if len(m) > 1 {
+			return m[:1] + strings.ToUpper(m[1:2]) + m[2:]
+		}
+	case 3:
+		b := []byte(m)
+		for i := 2; i < len(b); i += 2 {
+			if b[i] >= 'a' && b[i] <= 'z' {
+				b[i] -= 'a' - 'A'
+			}
+		}
+		return string(b)
+	}
+	return m
 }
 
 func (sh c04Shape) llLisp() string {
@@ -277,6 +311,30 @@ func c04SweepShapes() []c04Shape {
 	auxCall := []c04Param{d("x1", "(list)", "("+c04Sym("list")+")")}
 	auxBoth := []c04Param{d("x1", "b1", c04Sym("b1")), d("x2", "(list)", "("+c04Sym("list")+")")}
 	body := func(sh c04Shape) c04Shape { sh.restMarker = "&body"; return sh }
+	base := c04SweepBase(body, dep, req1, req2, opt1, opt1d, opt2, key1, key1d, key2, aux, auxVar, auxCall, auxBoth)
+	// every marker written in upper case, capitalised and alternating, in every section it can open and
+	// behind every other marker (symbols are case insensitive; every constructor of a Lambda and every
+	// reader of its documented list must treat `&OPTIONAL` like `&optional`)
+	cased := []c04Shape{
+		{opt: opt1d}, {rest: "r"}, body(c04Shape{rest: "r"}), {keys: key2}, {keys: key2, aok: true}, {aux: aux},
+		{req: req1, opt: opt1d, rest: "r"}, {req: req1, keys: key1d}, {req: req1, opt: opt1, keys: key1},
+		dep(c04Shape{req: req1}), dep(c04Shape{opt: opt1d}), dep(c04Shape{rest: "r"}), dep(c04Shape{keys: key1d}),
+		dep(c04Shape{req: req1, keys: key2, aok: true}),
+		{req: req1, opt: opt1d, rest: "r", keys: key2, aux: aux},
+	}
+	for i, sh := range cased {
+		for mc := 1; mc <= 3; mc++ {
+			if mc == 3 && i%4 != 2 {
+				continue
+			}
+			sh.mcase = mc
+			base = append(base, sh)
+		}
+	}
+	return base
+}
+
+func c04SweepBase(body, dep func(c04Shape) c04Shape, req1, req2 []string, opt1, opt1d, opt2, key1, key1d, key2, aux, auxVar, auxCall, auxBoth []c04Param) []c04Shape {
 	return []c04Shape{
 		// &body is the same marker as &rest, in every section it can follow
 		body(c04Shape{rest: "r"}), body(c04Shape{req: req1, rest: "r"}), body(c04Shape{opt: opt1d, rest: "r"}),
@@ -931,7 +989,13 @@ func c04Lambda(c *lib.Ctx) {
 	var cases []c04Case
 	// single-cause sweep (seed independent)
 	for _, sh := range c04SweepShapes() {
-		for _, v := range c04Vectors(sh, nil, true, 0) {
+		for vi, v := range c04Vectors(sh, nil, true, 0) {
+			// the spelling of a marker decides which section a parameter belongs to, not how a key tail
+			// is parsed: the re-spelled shapes take every vector of at most npos+3 arguments and every
+			// third of the longer ones (seed independent)
+			if sh.mcase != 0 && len(v) > sh.npos()+3 && vi%3 != 0 {
+				continue
+			}
 			cases = append(cases, c04Case{sh, v, true})
 		}
 	}
@@ -950,6 +1014,9 @@ func c04Lambda(c *lib.Ctx) {
 		if len(sh.aux) > 0 && si%2 == 1 {
 			sh.aux = nil
 			sh.aux = c04AuxParams(sh, 1) // initial forms that depend on the parameters before them
+		}
+		if si%4 == 2 {
+			sh.mcase = 1 + (si/4)%3 // markers in upper / capitalised / alternating case
 		}
 		for _, v := range c04Vectors(sh, c.Rng, false, budget) {
 			cases = append(cases, c04Case{sh, v, false})
@@ -1109,7 +1176,7 @@ func c04Lambda(c *lib.Ctx) {
 			for j, impl := range impls {
 				// what the j-th observed call must see: the vector itself, then the shifted vector
 				mj, machj := model, machine
-				if j > 0 {
+				if c04CallShifted(ctx, j) {
 					mj, machj = model2, machine2
 				}
 				listedJ := inListed
@@ -1138,7 +1205,7 @@ func c04Lambda(c *lib.Ctx) {
 					sig = c04AuxSig // exactly what the code says: the initial form bound as it is written
 				}
 				sent := cs.request()
-				if j > 0 {
+				if c04CallShifted(ctx, j) {
 					sent = reqs[shiftIdx[i]]
 				}
 				c.Report(sig, cs.sweep, map[string]any{
@@ -1168,7 +1235,7 @@ func c04ShapeJSON(sh c04Shape) map[string]any {
 		}
 		return out
 	}
-	return map[string]any{"req": sh.req, "opt": ps(sh.opt), "rest": sh.rest, "rest_marker": sh.restMarker, "keys": ps(sh.keys), "aok": sh.aok, "aux": ps(sh.aux)}
+	return map[string]any{"req": sh.req, "opt": ps(sh.opt), "rest": sh.rest, "rest_marker": sh.restMarker, "keys": ps(sh.keys), "aok": sh.aok, "aux": ps(sh.aux), "mcase": sh.mcase}
 }
 
 func c04ArgsJSON(args []c04Arg) []any {
@@ -1208,6 +1275,9 @@ func c04ShapeFromJSON(m map[string]any) c04Shape {
 	sh.keys = ps(m["keys"])
 	sh.aok, _ = m["aok"].(bool)
 	sh.aux = ps(m["aux"])
+	if f, ok := m["mcase"].(float64); ok {
+		sh.mcase = int(f)
+	}
 	return sh
 }
 
@@ -1238,7 +1308,7 @@ func c04ReplayLambda(c *lib.Ctx, rec map[string]any) {
 	fmt.Printf("replay %s\n", form)
 	for j, impl := range impls {
 		mj := model
-		if j > 0 {
+		if c04CallShifted(ctx, j) {
 			mj = model2
 		}
 		aspect := c04Judge(sh, ctx, mj, impl)
